@@ -763,3 +763,25 @@ var Tree = Cello(Tree,
   Instance(Show,    Tree_Show, NULL));
 
 
+
+#ifdef CELLO_VERIF
+
+/* Read-only accessors for the verification harness (/verif). No behaviour change. */
+
+var Cello_Verif_Tree_Root(var self) {
+  struct Tree* m = self;
+  return m->root;
+}
+
+void Cello_Verif_Tree_Node(var self, var node,
+  var* left, var* right, var* parent, bool* red, var* key, var* val) {
+  struct Tree* m = self;
+  *left = *Tree_Left(m, node);
+  *right = *Tree_Right(m, node);
+  *parent = Tree_Get_Parent(m, node);
+  *red = Tree_Is_Red(m, node);
+  *key = Tree_Key(m, node);
+  *val = Tree_Val(m, node);
+}
+
+#endif
